@@ -3,4 +3,5 @@ CONSTANTS
   SplitBits = 7
   MaxNodes = 8
 CONSTANT Timers <- TraceTimers
+VIEW ViewL
 CHECK_DEADLOCK FALSE
